@@ -71,6 +71,10 @@ CATALOGUE = [
     ('c20-revert-text-tabs', 'C20', P8,
      "                inc_code = io.BytesIO(b''.join(inc_game.lua.to_lines()))\n                for line in lines_for_tab(inc_code, inc_tab):\n",
      "                for line in lines_for_tab(inc_game.lua.to_lines(), inc_tab):\n", 'red'),
+    ('c20-revert-name-decode', 'C20', P8,
+     "        inc_path = lua.p8scii_to_unicode(inc_path_b)\n", "        inc_path = str(inc_path_b, encoding='utf-8')\n", 'red'),
+    ('c20-name-latin1', 'C20', P8,
+     "        inc_path = lua.p8scii_to_unicode(inc_path_b)\n", "        inc_path = str(inc_path_b, encoding='latin-1')\n", 'red'),
     # ---- C20: other realistic breakages
     ('c20-tab-off-by-one', 'C20', P8, "        elif inc_tab is None or inc_tab == cur_tab:\n", "        elif inc_tab is None or inc_tab == cur_tab + 1:\n", 'red'),
     ('c20-tab-lines-kept', 'C20', P8, "            if inc_tab is None:\n                # Preserve", "            if True:\n                # Preserve", 'red'),
